@@ -102,6 +102,15 @@ def _job_worker(job):
                 run.proc.kill()
                 out["truncated"] = True
                 break
+        if out["error"] is None and hasattr(replay_mod, "finish_job"):
+            extra, counters, err = replay_mod.finish_job(job)
+            out["trace_counters"] = counters
+            if err:
+                out["error"] = "trace validation failed: %s" % err
+            for m, r in extra:
+                if len(out["mismatches"]) < 60:
+                    out["mismatches"].append({"mismatch": m.to_dict(), "record": r,
+                                              "job": _job_essentials(job)})
     finally:
         if run.proc is not None and run.proc.poll() is None:
             run.proc.kill()
@@ -202,6 +211,8 @@ def finish(prop_id, tier, seed, level, results, t0, rule, assumptions, feature_f
     states = sum(r["tlc_distinct"] or r["distinct"] for r in results)
     transitions = sum(r["generated"] for r in results)
     replayed = sum(r["distinct"] for r in results)
+    traces_b = sum((r.get("trace_counters") or {}).get("traces", 0) for r in results)
+    traces_b_acc = sum((r.get("trace_counters") or {}).get("accepted", 0) for r in results)
     evaluations = sum(r["evaluations"] for r in results)
     nontrivial = sum(r["nontrivial"] for r in results)
     features = {}
@@ -252,7 +263,10 @@ def finish(prop_id, tier, seed, level, results, t0, rule, assumptions, feature_f
     missing_features = [f for f in feature_floor if features.get(f, 0) == 0]
     coverage = {
         "states": states, "transitions": transitions,
-        "traces_validated_against_impl": replayed,
+        "traces_validated_against_impl": replayed + traces_b,
+        "behaviours_replayed_into_impl": replayed,
+        "recorded_traces_validated_by_tlc": traces_b,
+        "recorded_traces_accepted": traces_b_acc,
         "evaluations": evaluations, "distinct_nontrivial": nontrivial,
         "rule": rule, "samples": samples or [{"note": "no sample"}],
         "features": features,
